@@ -34,6 +34,9 @@ def bad_cell(kind, value):
             "RegEx": "ab", "Text": ""}[kind]  # (Text rejects only the empty cell: the field is not allowed to be empty)
 
 
+RID_PREFIXES = ["\ufeff", "", "\u00a0", "'", "=", "\u200b", "#", "@", "-", "+"]
+
+
 def write_table(path, storage, table):
     if storage == "csv":
         with open(path, "w", newline="", encoding="utf-8") as target:
@@ -110,13 +113,17 @@ def _data_job(job):
     for number, row in enumerate(table["rows"], 1):
         cells = [ok_cell(kinds[i], row["v"][i]) if row["c"][i] == "ok" else bad_cell(kinds[i], row["v"][i]) for i in range(2)]
         # two optional columns at the end, empty in every second row (the first row has them, so that the sheet keeps its width)
-        concrete.append(["%d" % number] + cells + (["n", "n"] if number % 2 else ["", ""]))
+        # the first cell of every row starts with a character that text tools like to treat specially; it is an ordinary
+        # character of a text cell and must come back from every storage
+        concrete.append([RID_PREFIXES[(number - 1 + index) % len(RID_PREFIXES)] + "%d" % number] + cells
+                        + (["n", "n"] if number % 2 else ["", ""]))
     expected_out = entry["fresh"]["out"]
     problems = []
     for storage, fmt, suffix in (("csv", "delimited", ".csv"), ("ods", "ods", ".ods"), ("ods-runs", "ods", ".ods"),
                                  ("xlsx", "excel", ".xlsx")):
         cid = cutplace.Cid()
-        cid_rows = [["D", "Format", fmt]] + ([["D", "Header", str(header)]] if header else []) + [
+        cid_rows = [["D", "Format", fmt]] + ([["D", "Encoding", "utf-8"]] if fmt == "delimited" else []) + (
+            [["D", "Header", str(header)]] if header else []) + [
             ["F", "rid"]] + [["F", "f%d" % (i + 1), "", "", "", kinds[i], RULE[kinds[i]]] for i in range(2)] + [
             ["F", "note1", "", "X"], ["F", "note2", "", "X"]]
         for number, check in enumerate(vec["checks"], 1):
@@ -138,7 +145,7 @@ def _data_job(job):
                     cell = item.location.cell if isinstance(item, cutplace.errors.FieldValueError) else item.location.cell + 1
                     out.append(["err", item.location.line + 1, cell, type(item).__name__])
                 else:
-                    out.append(["row", int(item[0])])
+                    out.append(["row", int(item[0].lstrip("".join(RID_PREFIXES)))])
                     values.append(item)
             closing = "none"
         except cutplace.errors.CheckError:
